@@ -5,6 +5,7 @@ package liquid
 // construct; Path is the parse path; Render/RenderString never return output with an error.
 
 import (
+	"github.com/osteele/liquid/render"
 	"strings"
 
 	nd "github.com/osteele/liquid/zz_verifnd"
@@ -83,10 +84,8 @@ func VerifC07Template() {
 	if f.src == "{% endif %}" || f.src == "{% if true %}" || f.src == "{% cycle 'a' %}" {
 		nd.Assume(pi <= 2) // these are only failures outside blocks / loops
 	}
-	path := ""
-	if nd.Choice(2) == 1 {
-		path = "dir/t.html"
-	}
+	// the path is reported exactly as given: no cleaning, no resolution
+	path := []string{"", "dir/t.html", "./dir//t.html", "a/../t.html", "dir/"}[nd.Choice(5)]
 	start := nd.Int()
 	nd.Assume(start >= 0 && start < 1<<40)
 	pre += c07Filler(nd.Choice(c07Fillers))
@@ -123,4 +122,54 @@ func VerifC07Template() {
 		nd.Assert(strings.Contains(err.Error(), f.word) || (f.word == "convert" && (strings.Contains(err.Error(), "abc") || strings.Contains(err.Error(), "type"))), "message-names-problem")
 	}
 	nd.Reach("C07.template")
+}
+
+type c07Wrapped struct{ inner error }
+
+func (e c07Wrapped) Error() string { return "outer: " + e.inner.Error() }
+func (e c07Wrapped) Cause() error  { return e.inner }
+
+type c07Plain struct{}
+
+func (c07Plain) Error() string { return "inner failure" }
+
+// VerifC07Cause: Cause returns the error that was wrapped — the tag's or filter's own error, as it
+// is, even when that error has a cause of its own.
+func VerifC07Cause() {
+	e := NewEngine()
+	own := c07Wrapped{c07Plain{}}
+	e.RegisterTag("failing", func(render.Context) (string, error) { return "", own })
+	e.RegisterFilter("failing_filter", func(s string) (string, error) { return "", own })
+	src := []string{"a\n{% failing %}", "{% if true %}\n\n{% failing %}{% endif %}", "x\n{{ 'v' | failing_filter }}"}[nd.Choice(3)]
+	wantLine := []int{1, 2, 1}
+	k := 0
+	for i, c := range []string{"a\n{% failing %}", "{% if true %}\n\n{% failing %}{% endif %}", "x\n{{ 'v' | failing_filter }}"} {
+		if c == src {
+			k = i
+		}
+	}
+	tpl, perr := e.ParseTemplateLocation([]byte(src), "p.html", 0)
+	nd.Assert(perr == nil, "parses")
+	if perr != nil {
+		return
+	}
+	out, err := tpl.RenderString(Bindings{})
+	nd.Assert(err != nil && out == "", "custom-failure-is-error")
+	if err == nil {
+		return
+	}
+	nd.Assert(err.LineNumber() == wantLine[k], "custom-failure-line")
+	c := err.Cause()
+	if fe, ok := c.(interface{ Unwrap() error }); ok && k == 2 {
+		// a filter's error arrives wrapped in a FilterError, whose own cause it is
+		if u := fe.Unwrap(); u != nil {
+			c = u
+		}
+	}
+	if k == 2 {
+		nd.Assert(c != nil && strings.Contains(c.Error(), "outer: inner failure"), "cause-is-the-wrapped-error")
+	} else {
+		nd.Assert(c == error(own), "cause-is-the-wrapped-error")
+	}
+	nd.Reach("C07.cause")
 }
